@@ -395,7 +395,7 @@ UNIT = dict(
                     assert(om[a].disjoint(&om[b]));
                     assert(om[a].wf() && om[b].wf());
                 }
-            }\1\2""", 1),
+            }\1\2""", None),
             ],
         ),
         dict(
